@@ -229,7 +229,7 @@ def recall_call_sites():
 
 # ----------------------------------------------------------------------------------------------- V1
 @harness('V1', targets=[f'{INV}.ResourceMemories.recall', f'{INV}.ResourceMemories.forget', f'{INV}.ResourceMemories._build_key'],
-         props=['C14', 'C03', 'C09'],
+         props=['C14', 'C03', 'C09', 'C05', 'C06', 'C07', 'C08', 'C10', 'C12', 'C13', 'C17'],
          clauses=['keyed_by_uid', 'existing_returned_unchanged', 'flag_fixed_at_creation', 'remembered_unless_ephemeral',
                   'forget_removes_only_that_key', 'others_untouched', 'single_writer_fully_handled_once',
                   'noticed_by_listing_never_reassigned'],
@@ -319,7 +319,7 @@ def V1(vc):
 
 
 # ----------------------------------------------------------------------------------------------- V2
-@harness('V2', targets=[f'{INV}.ResourceMemories.recall', f'{INV}.ResourceMemories.recall_memo'], props=['C14', 'C03'],
+@harness('V2', targets=[f'{INV}.ResourceMemories.recall', f'{INV}.ResourceMemories.recall_memo'], props=['C14', 'C03', 'C06', 'C08', 'C13', 'C17', 'C18'],
          clauses=['listed_preexisting_object_is_noticed', 'relisting_changes_nothing', 'call_sites_known'],
          canaries=['canary.always_noticed'],
          trusted=['the keyword expressions `noticed_by_listing=...` (processing.process_resource_event) and '
